@@ -435,6 +435,14 @@ class SparseDrugComboInteraction(BayesianModel, MCMCModel):
                 "received a {} treatment dataset".format(data.treatment_arity)
             )
 
+        if not (data.observations >= 0.0).all():
+            raise ValueError(
+                "Observations should be non-negative, please check input data"
+            )
+
+        if np.isnan(data.observations).any():
+            raise ValueError("NaNs in observations, please check input data")
+
         self.single_effect_lookup.update(
             create_single_treatment_effect_map(
                 sample_ids=data.sample_ids,
@@ -443,9 +451,8 @@ class SparseDrugComboInteraction(BayesianModel, MCMCModel):
             )
         )
 
-        combo_mask = np.sum(data.treatment_ids == CONTROL_SENTINEL_VALUE, axis=1) == (
-            data.treatment_ids.shape[1]
-        )
+        # combination experiments are the rows without any control treatment
+        combo_mask = np.sum(data.treatment_ids == CONTROL_SENTINEL_VALUE, axis=1) == 0
 
         obs = data.observations[combo_mask]
         cls = data.sample_ids[combo_mask]
